@@ -1,6 +1,8 @@
 import IstioModel.Common.Wire
 import IstioModel.C16.Model
 import IstioModel.C16.Driver
+import IstioModel.C16.JoinModel
+import IstioModel.C16.JoinDriver
 
 /-!
 Driver part for the stream `exact`: the runtime model `Model.lean` (the object of the runtime
@@ -117,6 +119,36 @@ def stepX (x : XState) (toks : List String) : XState × String :=
     ({ x with sys := s', paused := false, order := [] }, showStep x.held s')
   | ["lookup", ns] =>
     if x.started then (x, "lookup " ++ showMap (idxLookup x.sys.col ns)) else (x, "lookup not-started")
+  | _ => (x, "bad-op")
+
+/-! ### stream `joinx`: the join event-path model (JoinModel.lean) against the real JoinCollection, one
+    change at a time (sequential schedule): events of the step and `List()` must be equal. -/
+
+structure JXState where
+  started : Bool := false
+  sys : JSys := {}
+
+def stepJX (x : JXState) (toks : List String) : JXState × String :=
+  let show_ (before after : JSys) : String :=
+    let evs := (after.out.drop before.out.length).map evTok
+    s!"e={evs.length}" ++ String.join (evs.map (fun t => " " ++ t)) ++ " | " ++ showMap (joinContents after.cols)
+  match toks with
+  | "case" :: _ :: _ :: n :: _ => ({ sys := JSys.init (n.toNat?.getD 2) }, "ok")
+  | ["start"] => ({ x with started := true }, "ok")
+  | ["c.set", i, o] =>
+    match i.toNat?, parseJObj o with
+    | some i, some o =>
+      if !x.started || i ≥ x.sys.cols.length then (x, "bad-op") else
+      let s' := jproc (jenv x.sys i (.set o)) i
+      ({ x with sys := s' }, show_ x.sys s')
+    | _, _ => (x, "bad-op")
+  | ["c.del", i, k] =>
+    match i.toNat? with
+    | some i =>
+      if !x.started || i ≥ x.sys.cols.length then (x, "bad-op") else
+      let s' := jproc (jenv x.sys i (.del k)) i
+      ({ x with sys := s' }, show_ x.sys s')
+    | none => (x, "bad-op")
   | _ => (x, "bad-op")
 
 end IstioModel.C16
